@@ -3,6 +3,8 @@ import GoImap.Lemmas.ClientConcTags
 import GoImap.Lemmas.ClientConcOnce
 import GoImap.Lemmas.ClientConcKeep
 import GoImap.Lemmas.ClientConcSend
+import GoImap.Lemmas.ClientConcPend
+import GoImap.Lemmas.ClientConcClose
 /-!
   C13 — the client is safe for concurrent use. Property theorems about `GoImap.ClientConc`
   (Model/ClientConc.lean: one step per c.mutex / c.encMutex critical section or channel operation,
@@ -93,6 +95,27 @@ theorem f26_repaired_on_that_schedule :
     (quiescent scReorder s && s.enc.isNone && ((s.cmd 0).sent == 1)) = true := by
   decide
 
+
+def scLate : Scenario :=
+  { subs := [[.login2], [.login]], closes := 0, observer := [], server := [.reply .no true, .cont] }
+
+/-- before 0d4c77c: the first literal of a LOGIN with two literals is refused with NO; the command
+    writer still registers the continuation request of the second literal, for a command that is
+    over; it stays queued and takes the "+" the server sends for the NEXT command's literal
+    (addressed to command 1, handed to command 0) -/
+theorem late_contreq_counterexample :
+    let s := run Legacy.lateContReq (init Legacy.lateContReq scLate)
+      [4, 4, 4, 4, 4, 1, 0, 0, 0, 0, 0, 0, 0, 0, 4, 4, 4, 4, 4, 4, 4, 5, 5, 5, 5, 5, 1, 0, 0, 0, 0, 0]
+    (s.contAddressed, s.contResumed) = ([1], [0]) := by
+  decide
+
+/-- the repaired code cancels that request at once: the "+" reaches the command it was sent for -/
+theorem late_contreq_repaired_on_that_schedule :
+    let s := run fixed (init fixed scLate)
+      [4, 4, 4, 4, 4, 1, 0, 0, 0, 0, 0, 0, 0, 0, 4, 4, 4, 4, 4, 4, 4, 5, 5, 5, 5, 5, 1, 0, 0, 0, 0, 0]
+    (s.contAddressed, s.contResumed) = ([1], [1]) := by
+  decide
+
 /-! ### theorems for all schedules -/
 
 /-- tags stay unique: in every reachable state of every variant, two registered commands with the
@@ -146,24 +169,87 @@ theorem no_completion_lost (v : Variant) (sc : Scenario) (sched : List Nat) :
   · have h4 := ho.le c
     exact Or.inr (Or.inr (Nat.le_antisymm h4 h3))
 
-/-- every thread has run to the end of its program and nothing is queued any more -/
-def Quiescent (s : St) : Prop := (∀ t, s.prog t = []) ∧ s.pending = []
+/-- every thread of the client (everything but the server end) has run to the end of its program -/
+def AllDone (s : St) : Prop := ∀ t, t ≠ tServer → s.prog t = []
 
-/-- exactly once: when every thread has finished and pendingCmds is empty, every registered command
-    has been completed exactly once. (That pendingCmds IS empty once all threads have finished is
-    validated on every enforced schedule by the oracle, not proved.) -/
+/-- in every terminal state of every schedule nothing is left in pendingCmds: a queued command is
+    always taken care of by the reader's loop, by a pending closeWithError, or by its own writer's
+    next flush -/
+theorem quiescent_no_pending (v : Variant) (sc : Scenario) (sched : List Nat) :
+    let s := run v (init v sc) sched
+    AllDone s → s.pending = [] :=
+  no_pending_of_all_done v sc sched
+
+/-- exactly once: in every terminal state of every schedule every registered command has been
+    completed exactly once (by its tagged reply or by closeWithError) -/
 theorem complete_exactly_once (v : Variant) (sc : Scenario) (sched : List Nat) :
     let s := run v (init v sc) sched
-    Quiescent s → ∀ c, (s.cmd c).registered = true → (s.cmd c).sent = 1 := by
+    AllDone s → ∀ c, (s.cmd c).registered = true → (s.cmd c).sent = 1 := by
   intro s hq c hc
   rcases no_completion_lost v sc sched c hc with h1 | h2 | h3
   · have : c ∈ s.pending := h1.1
-    rw [hq.2] at this; cases this
+    rw [quiescent_no_pending v sc sched hq] at this; cases this
   · obtain ⟨⟨t, ht, _⟩, _⟩ := h2
-    have : toks c (s.prog t) = 1 := ht
-    rw [hq.1 t] at this; cases this
+    have hne : s.prog t ≠ [] := by intro e; rw [e] at ht; cases ht
+    have hsrv := srvOnly_run v sched (init v sc) (srvOnly_init v sc)
+    by_cases hts : t = tServer
+    · subst hts
+      -- the server thread only holds server actions, none of which is a token
+      have : toks c (s.prog tServer) = 0 := by
+        have : ∀ p : List Instr, (∀ x, x ∈ p → ∃ a, x = Instr.srv a) → toks c p = 0 := by
+          intro p
+          induction p with
+          | nil => intro _; rfl
+          | cons x p ih =>
+            intro hx
+            obtain ⟨a, e⟩ := hx x List.mem_cons_self
+            rw [toks_cons, ih (fun y hy => hx y (List.mem_cons_of_mem _ hy)), e]; rfl
+        exact this _ hsrv
+      rw [this] at ht; cases ht
+    · exact absurd (hq t hts) hne
   · exact h3
 
+/-- the reader always reaches `close(decCh)`: its program consists of reader and completion
+    instructions only; when it is empty `decCh` and the connection are closed; and (repaired code)
+    once the connection is closed none of its instructions is ever blocked -/
+theorem reader_reaches_close (v : Variant) (hv : v.initFirst = true) (sc : Scenario) (sched : List Nat) :
+    let s := run v (init v sc) sched
+    (s.prog tReader = [] → s.decClosed = true ∧ s.connClosed = true) ∧
+    (s.crashed = false → s.connClosed = true → s.prog tReader ≠ [] → enabled v s tReader = true) := by
+  intro s
+  have h := closeCtx_run v hv sched (init v sc) (closeCtx_init v sc)
+  refine ⟨fun he => ?_, fun hcr hc hne => reader_enabled v s h.rd h.send h.once hcr hc hne⟩
+  have hl := h.rd.last
+  rw [he] at hl
+  exact hl
+
+/-- no_stuck_closer, part 1: every step that changes the state strictly decreases the measure `mu`
+    (there are no infinite runs: every fair schedule reaches a state in which nothing is enabled) -/
+theorem every_step_decreases (v : Variant) (s : St) (t : Nat) :
+    (enabled v s t = true → mu (step v s t) < mu s) ∧ (enabled v s t = false → step v s t = s) :=
+  ⟨step_decreases v s t, step_eq_of_not_enabled v s t⟩
+
+/-- no_stuck_closer, part 2: as long as `Close` has not returned (and the process has not
+    panicked), the reader or the closer is enabled: `Close` is never stuck -/
+theorem closer_never_stuck (v : Variant) (hv : v.initFirst = true) (sc : Scenario) (sched : List Nat) :
+    let s := run v (init v sc) sched
+    s.crashed = false → s.prog tCloser ≠ [] → enabled v s tReader = true ∨ enabled v s tCloser = true := by
+  intro s hcr hne
+  exact closer_progress v s (closeCtx_run v hv sched (init v sc) (closeCtx_init v sc)) hcr hne
+
+/-- no_stuck_closer: from every reachable state of the repaired model, the reader and the closer
+    alone bring `Close` to return in at most `mu` steps, whatever the other threads did before; all
+    other steps only decrease `mu`. Hence `Client.Close` returns in every schedule that keeps
+    scheduling these two threads. (`crashed` = the process panicked.) -/
+theorem no_stuck_closer (v : Variant) (hv : v.initFirst = true) (sc : Scenario) (sched : List Nat) :
+    let s := run v (init v sc) sched
+    ∃ more : List Nat, (∀ t, t ∈ more → t = tReader ∨ t = tCloser) ∧ more.length ≤ mu s ∧
+      ((run v (init v sc) (sched ++ more)).prog tCloser = [] ∨
+       (run v (init v sc) (sched ++ more)).crashed = true) := by
+  intro s
+  obtain ⟨more, h1, h2, h3⟩ := close_returns_from v hv (mu s) s
+    (closeCtx_run v hv sched (init v sc) (closeCtx_init v sc)) (Nat.le_refl _)
+  exact ⟨more, h1, h2, by rw [run_append]; exact h3⟩
 
 /-- part of no_stuck_closer: in the repaired code (any variant that initialises before registering)
     a completion is never blocked, so neither the reader nor Close can hang the way F21 did.
